@@ -172,7 +172,7 @@ class Gen:
         name = "T%d" % t
         pk = ["int", "intref", "constint", "idT", "clockref", "chanref"]
         bounded_only = r.random() < 0.25
-        np_ = r.choice([0, 0, 1, 2, 3, 4])
+        np_ = r.choice([0, 0, 1, 2, 3, 4] if self.size <= 1 else [0, 1, 2, 3, 4, 5, 6, 7])
         params = []
         for i in range(np_):
             kind = "idT" if bounded_only else r.choice(pk)
